@@ -309,19 +309,27 @@ class Runner:
         self.storage_type = storage_type
         self.layout = layout or {}
 
-    def run(self, world, hist, want_store=False):
-        """Returns the list of canonical responses as nested Python tuples (mirroring cresp)."""
-        cfg, pols = world
+    @staticmethod
+    def install_policy(pols):
         POLICY.clear()
         for (uname, table), ustr in zip(pols, USERS):
             for p, perm in table.items():
                 POLICY[(ustr or "", "/".join(name_str(n) for n in p))] = perm
+
+    def run(self, world, hist, want_store=False, setup=None):
+        """Returns the list of canonical responses as nested Python tuples (mirroring cresp).
+        setup = (pols, history): executed first on the same server under its own policy tables (not reported)."""
+        cfg, pols = world
+        self.install_policy(pols if setup is None else setup[0])
         conf = {"auth": {"type": "none"}, "rights": {"type": "vlib.x_rights", "permit_delete_collection": str(cfg[0]),
                                                       "permit_overwrite_collection": str(cfg[1])},
                 "storage": dict(type=self.storage_type, **self.layout)}
         out = []
         with impl.Server(conf=conf) as srv:
             self.srv = srv
+            if setup is not None:
+                self.setup_out = [self.one(srv, ui, r) for ui, r in setup[1]]
+                self.install_policy(pols)
             self.dumps = []
             self.pre = []
             self.probes = []
